@@ -793,7 +793,10 @@ def check_c06(S, rt, how):
       if k == 'p':
         cur_stmt = ev[2]
       if k == 'xf':
-        exempt = True       # exceptional propagation: outside the claim from here on
+        # exceptional propagation through a finally block: unmodelled, and the state the
+        # handler that eventually catches it sees is not described by the graph either:
+        # the rest of this activation is outside the claim (as in check_c07)
+        break
       elif k == 'h':
         if not exempt and cur_stmt is not None and not _is_raise(S, cur_stmt):
           # handler entered from a statement that is not an explicit raise: an implicit
